@@ -272,7 +272,7 @@ def run(chk: core.Check):
     shim.install()
     shim.set_backend("compile")
     quick = chk.tier == "quick"
-    base = {"Indices": {3, 7, 12}, "K": 3 if quick else 4, "HiddenState": False, "PickRule": "largest"}
+    base = {"Indices": {3, 12, 10007}, "K": 3 if quick else 4, "HiddenState": False, "PickRule": "largest"}
     res = tlc.run_wrapped("Restart", base, INV + "ACTION_CONSTRAINT EmitHelper\n", workers="auto", timeout=1500)
     chk.add_tlc("Restart intended", res)
     r2 = tlc.run_wrapped("Restart", dict(base, HiddenState=True), INV, timeout=600)
